@@ -686,6 +686,26 @@ class Exec(Interp):
             getter = lambda i: z3.Select(arr0, i)
         elif isinstance(it, Abstract) and hasattr(it, "iter_protocol"):
             lo, hi, stepv, getter = it.iter_protocol(self)
+        elif isinstance(it, FilteredGen):
+            lo, hi, stepv = it.lo, it.hi, 1
+            fg = it
+
+            def getter(i):
+                # evaluated in the generator's own scope (late binding, as in Python): bind its variable to item i, skip
+                # the loop body for an item that fails a filter, hand the element expression to the loop target
+                fr = Frame(fg.frame.module, {}, parent=fg.frame, spec=fg.frame.spec)
+                self.frames.append(fr)
+                try:
+                    self.assign(fg.target, fg.getter(i))
+                    for c in fg.ifs:
+                        t = self.truth(self.ev(c))
+                        if not isinstance(t, bool):
+                            t = self.decide(t, "generator-filter")
+                        if not t:
+                            raise ContinueSig()
+                    return self.ev(fg.elt)
+                finally:
+                    self.frames.pop()
         else:
             raise OutsideSubset("for loop with invariant over %r" % (it,), node)
         if concrete_int(stepv) != 1:
